@@ -84,6 +84,14 @@ CHECKS = {
          "History independence is a statement over all operation sequences: exhaustive up to MaxOps on the model, every such history and "
          "random ones of up to 30 operations on the real code with a differential oracle.", "6 C11",
          "Trusted: TLC, Json module, net/http (ServeMux). Duplicate roots / duplicate Handle patterns are not generated (documented exits/panics)."),
+ "C12": ("TLC exhaustive model checking of MC_RegistryConc (lock-discipline model: every operation a straight-line program of RWMutex "
+         "operations and shared accesses, all interleavings of 4-5 threads; invariants NoDataRace / LockSound, deadlock check, liveness "
+         "Completion under weak fairness; three legacy disciplines refuted) + the conflicting operation pairs and seeded mutation histories "
+         "run on the real Container under the Go race detector + TLC trace validation (ConcTrace): every response must be the answer of a "
+         "registration state that existed during the request (window rule, incl. isolation)",
+         "Data-race freedom is decided on the lock-discipline model and observed on the real code by the race detector on exactly the "
+         "pairs the model shows to be critical; linearisability of responses is checked against fresh containers for every state of the window.",
+         "6 C12", "Trusted: TLC, the Go race detector (dynamic), one mutator goroutine; a 30 s watchdog defines deadlock."),
 }
 
 NOT_YET = "check under construction in this round; see DESIGN.md section 13 (build order)"
